@@ -219,8 +219,9 @@ Definition access (y a : Z) (s : sys) : sys * res * list event :=
       let s2 := set_prom s1 CInternal FFuture (argp s1) (ret s1) (exn s1) (done s1) (block s1) true in
       let '(s3, ev) := run_body s2 0 in
       let '(s4, r) := settle y s3 in (s4, r, ev)
-  else if y =? 3 then
-    (* co_await next(): await_ready = done(); await_suspend -> next_async, generator.h:200-211, 310-318 *)
+  else if (y =? 3) || (y =? 6) then
+    (* co_await next(): await_ready = done(); await_suspend -> next_async, generator.h:200-211, 310-318;
+       style 6: the same through next_awt::subscribe(awaiter pointer) with a plain awaiter that counts its resumptions *)
     if done s then (set_cons s (out s) (fut s) (itn s) (awake s) false, REndF, [])
     else
       let s := busy s in
@@ -252,29 +253,35 @@ Inductive op :=
 | OBad.
 
 (* observation: status (0 ok / 1 rejected), result, news, dels, events *)
-Record obs := mkObs { o_st : Z; o_res : res; o_done : Z; o_news : Z; o_dels : Z; o_ev : list event }.
-Definition rejected : obs := mkObs 1 RNone 0 0 0 [].
+(* o_cnt: how many times the consumer's awaiter was resumed for the answer given by this op (style 6 only) *)
+Record obs := mkObs { o_st : Z; o_res : res; o_done : Z; o_news : Z; o_dels : Z; o_ev : list event; o_cnt : Z }.
+Definition rejected : obs := mkObs 1 RNone 0 0 0 [] 0.
+
+(* the awaiter of a style-6 access is resumed exactly once, and only when the body was actually resumed for it *)
+Definition resumes (y : Z) (ran : bool) (r : res) : Z :=
+  if (y =? 6) && ran then match r with RPend => 0 | _ => 1 end else 0.
 Definition done_flag (s : sys) : Z := if live s then b2z (done s) else 2.
 
 Definition style_ok (ha : bool) (y : Z) : bool :=
-  (0 <=? y) && (y <=? 5) && negb (ha && (y =? 1)).
+  (0 <=? y) && (y <=? 6) && negb (ha && (y =? 1)).
 
 Definition step (ha : bool) (s : sys) (x : op) : sys * obs :=
   match x with
   | OCreate sc =>
       if created s then (s, rejected) else
       let s1 := mkSys true true sc [] 0 BInit CNull FNone None None None false false false None FNoVal None false false (err s) in
-      (s1, mkObs 0 RNone (done_flag s1) 1 0 [])
+      (s1, mkObs 0 RNone (done_flag s1) 1 0 [] 0)
   | OAccess y a =>
       if live s && (match out s with None => true | Some _ => false end) && style_ok ha y then
-        let '(s1, r, ev) := access y a s in (s1, mkObs 0 r (done_flag s1) 0 0 ev)
+        let '(s1, r, ev) := access y a s in
+        (s1, mkObs 0 r (done_flag s1) 0 0 ev (resumes y (negb (done s) && negb (is_final s)) r))
       else (s, rejected)
   | OComplete k v =>
       match out s, bst s with
       | Some y, BPend k' =>
           if live s && (k =? k') then
             let '(s1, ev) := run_body s v in
-            let '(s2, r) := settle y s1 in (s2, mkObs 0 r (done_flag s2) 0 0 ev)
+            let '(s2, r) := settle y s1 in (s2, mkObs 0 r (done_flag s2) 0 0 ev (resumes y true r))
           else (s, rejected)
       | _, _ => (s, rejected)
       end
@@ -282,11 +289,11 @@ Definition step (ha : bool) (s : sys) (x : op) : sys * obs :=
       if live s && (match out s with None => true | Some _ => false end) then
         (* ~generator -> handle.destroy(): the frame's live locals are destroyed youngest first, the frame is freed *)
         let s1 := set_live (set_frame s (pc s) [] (cur s) (bst s)) false true in
-        (s1, mkObs 0 RNone (done_flag s1) 0 1 (map EDtor (gds s)))
+        (s1, mkObs 0 RNone (done_flag s1) 0 1 (map EDtor (gds s)) 0)
       else (s, rejected)
   | OPeek =>
       if live s && (match out s with None => true | Some _ => false end) then
-        (s, mkObs 0 (value_of s) (done_flag s) 0 0 [])
+        (s, mkObs 0 (value_of s) (done_flag s) 0 0 [] 0)
       else (s, rejected)
   | OBad => (s, rejected)
   end.
@@ -335,7 +342,7 @@ Fixpoint enc_events (ha : bool) (l : list event) : list Z :=
   end.
 
 Definition encode_obs (ha : bool) (o : obs) : list Z :=
-  o_st o :: fst (enc_res (o_res o)) :: snd (enc_res (o_res o)) :: o_done o :: o_news o :: o_dels o
+  o_st o :: fst (enc_res (o_res o)) :: snd (enc_res (o_res o)) :: o_done o :: o_news o :: o_dels o :: o_cnt o
        :: enc_events ha (o_ev o).
 
 Definition gen_run (ha : bool) (ops : list (list Z)) : list (list Z) :=
@@ -451,8 +458,8 @@ Fixpoint dec_events (l : list Z) : list event :=
 
 Definition dec_obs (l : list Z) : obs :=
   match l with
-  | st :: k :: v :: d :: n :: dl :: ev => mkObs st (dec_res k v) d n dl (dec_events ev)
-  | _ => mkObs 1 RBad 0 0 0 []
+  | st :: k :: v :: d :: n :: dl :: c :: ev => mkObs st (dec_res k v) d n dl (dec_events ev) c
+  | _ => mkObs 1 RBad 0 0 0 [] 0
   end.
 
 Definition script_of (x : op) : list instr := match x with OCreate sc => sc | _ => [] end.
@@ -509,9 +516,113 @@ Definition gen_oracle (ha : bool) (wops wobs : list (list Z)) : bool :=
       && no_bad os
       && peek_ok ops os None None
       && no_trailing_pend os
+      && forallb (fun o => (0 <=? o_cnt o) && (o_cnt o <=? 1)) os
       && conforms (visible ha (log_of ops os 0)) (visible ha (spec sc (call_args ops os))) 0
       && (if closed_by_destroy ops os
           then balanced (all_events os) && (sumz (map o_news os) =? 1) && (sumz (map o_dels os) =? 1)
           else true)
   | _ => forallb (fun o => negb (ok o)) os && Nat.eqb (length ops) (length os)
+  end.
+
+(* ---------- smoke engine: generator<int> whose frame lives in a reusable_storage (with_allocator.h, coro_storage.h).
+   Same behaviour; the measured Create reuses the block sized by a warm-up generator (no operator new) and the
+   destructor returns the block to the storage (no operator delete). ---------- *)
+Definition patch_storage (l : list Z) : list Z :=
+  match l with
+  | st :: k :: v :: d :: _ :: _ :: rest => st :: k :: v :: d :: 0 :: 0 :: rest
+  | _ => l
+  end.
+Definition gens_run (ops : list (list Z)) : list (list Z) := map patch_storage (gen_run false ops).
+
+(* undo the patch on an observed line so that the frame-balance clause of gen_oracle applies: exactly the accepted
+   Create / Destroy lines must show 0 news / 0 dels *)
+Definition unpatch_storage (p : list Z * list Z) : list Z :=
+  let '(wop, l) := p in
+  match l with
+  | st :: k :: v :: d :: n :: dl :: rest =>
+      if st =? 0 then
+        match wop with
+        | 0 :: _ => st :: k :: v :: d :: (if n =? 0 then 1 else 99) :: dl :: rest
+        | [3] => st :: k :: v :: d :: n :: (if dl =? 0 then 1 else 99) :: rest
+        | _ => l
+        end
+      else l
+  | _ => l
+  end.
+Definition gens_oracle (wops wobs : list (list Z)) : bool :=
+  Nat.eqb (length wops) (length wobs) && gen_oracle false wops (map unpatch_storage (combine wops wobs)).
+
+(* ---------- engine genc: the accesses of the case are issued by one thread while another thread completes every
+   pending await of the body as soon as it appears (value 100+k); under every schedule the observations must be those
+   of the sequential model with the completions inserted right after the access that left the body suspended ---------- *)
+Fixpoint settle_all (fuel : nat) (ha : bool) (s : sys) (o : obs) : sys * obs :=
+  match fuel with
+  | O => (s, o)
+  | S f =>
+      match o_res o, bst s with
+      | RPend, BPend k =>
+          let '(s1, o1) := step ha s (OComplete k (100 + k)) in
+          settle_all f ha s1 (mkObs (o_st o1) (o_res o1) (o_done o1) 0 0 (o_ev o ++ o_ev o1) (o_cnt o1))
+      | _, _ => (s, o)
+      end
+  end.
+
+Definition zero_alloc (o : obs) : obs := mkObs (o_st o) (o_res o) (o_done o) 0 0 (o_ev o) (o_cnt o).
+
+Definition drive (ha : bool) (s : sys) (y a : Z) : sys * obs :=
+  let '(s1, o) := step ha s (OAccess y a) in settle_all (S (length (pc s))) ha s1 (zero_alloc o).
+
+(* for (int v : gen): iterator accesses until something other than a value comes out *)
+Fixpoint range_for (fuel : nat) (ha : bool) (s : sys) : sys * list obs :=
+  match fuel with
+  | O => (s, [])
+  | S f =>
+      let '(s1, o) := drive ha s 1 0 in
+      match o_res o with
+      | RVal _ => let '(s2, os) := range_for f ha s1 in (s2, o :: os)
+      | _ => (s1, [o])
+      end
+  end.
+
+Fixpoint genc_from (ha : bool) (s : sys) (ops : list (list Z)) : list obs :=
+  match ops with
+  | [] => []
+  | w :: t =>
+      match w with
+      | 9 :: _ => genc_from ha s t
+      | [1; y; a] =>
+          if y =? 7 then
+            if negb ha && live s then let '(s1, os) := range_for (S (S (length (pc s)))) ha s in os ++ genc_from ha s1 t
+            else rejected :: genc_from ha s t
+          else let '(s1, o) := drive ha s y a in o :: genc_from ha s1 t
+      | 0 :: _ => let '(s1, o) := step ha s (decode ha w) in zero_alloc o :: genc_from ha s1 t
+      | [3] => let '(s1, o) := step ha s ODestroy in zero_alloc o :: genc_from ha s1 t
+      | _ => rejected :: genc_from ha s t
+      end
+  end.
+
+Definition genc_run (ha : bool) (ops : list (list Z)) : list (list Z) :=
+  map (encode_obs ha) (genc_from ha sys0 ops).
+
+(* oracle on an observed trace: every answer line in order (values, exception, End) and the arguments the body
+   received conform to the specification of the script; RAII balance; resumption counts *)
+Fixpoint genc_args (ops : list (list Z)) : list Z :=
+  match ops with
+  | [] => []
+  | [1; y; a] :: t => if y =? 7 then genc_args t else a :: genc_args t
+  | _ :: t => genc_args t
+  end.
+
+Definition genc_oracle (ha : bool) (wops wobs : list (list Z)) : bool :=
+  let os := map dec_obs wobs in
+  let acc := filter ok os in
+  let log := map (fun i => (i, O)) (flat_map (fun o => arg_items (o_ev o) ++ res_item (o_res o)) acc) in
+  match wops with
+  | (0 :: sc) :: _ =>
+      no_bad os
+      && conforms (visible ha log) (map (fun p => (fst p, O)) (visible ha (spec (decode_script ha sc) (genc_args wops)))) O
+      && forallb (fun o => (0 <=? o_cnt o) && (o_cnt o <=? 1)) os
+      && (if existsb (fun w => match w with [3] => true | _ => false end) wops then balanced (all_events os) else true)
+      && negb (existsb (fun o => match o_res o with RPend | RNReady => true | _ => false end) acc)
+  | _ => forallb (fun o => negb (ok o)) os
   end.
